@@ -156,8 +156,8 @@ def text_family(rng, ctx, tmp, quick, k):
     version = ['1.0', '2.0c', '1.0a', '2.0', '1.0c', '2.0a'][k % 6]
     appended = version.endswith('a')
     idxs = [1, 2]
-    cl = {r: [3 + 2 * i for i in range(6)] for r in idxs}
-    T = 2
+    cl = {r: [3 + 2 * i for i in range(6 if r == 2 else 5)] for r in idxs}
+    T = 4
     specs = [w_sf.bi('f_A', wf=0)] if appended else [w_sf.bi('f_A', wf=0), w_sf.bb('f_1', wf=0, wf2=0)]
     spec = specs[0]
     replicas = {}
@@ -171,26 +171,35 @@ def text_family(rng, ctx, tmp, quick, k):
         return pe.input.sfcf.read_sfcf(d, 'tst', spec.name, quarks=spec.quarks, corr_type=spec.corr_type, noffset=spec.offset, wf=spec.wf, wf2=0, version=version, silent=True)
     reps = [{'stem': 'tst_r%d' % r, 'recs': [{'cfg': cfg, 'p': [[rat(re), rat(im)] for re, im in corrs[tuple(spec)]]} for cfg, corrs in replicas['tst_r%d' % r]]} for r in idxs]
     cases = []
-    # the file that is cut: appended -> the f_A file of the last replica; otherwise the file of the LAST configuration of the last replica
-    cand = [x for x in desc if x['replica'] == 'tst_r2' and (x.get('name') in (None, 'f_A'))]
-    target = cand[-1]
-    size = os.path.getsize(target['path'])
+    # the files that are cut: appended -> the f_A file of the first and of the last replica; otherwise (one file per configuration) the file of
+    # the FIRST configuration of the first replica (the one the reader takes the layout from), a middle one and the LAST of the last replica
+    mine = [x for x in desc if x.get('name') in (None, 'f_A')]
     if appended:
-        bounds = [[s, e] for s, e, _ in target['records']]
+        targets = [(1, [x for x in mine if x['replica'] == 'tst_r1'][0], None), (2, [x for x in mine if x['replica'] == 'tst_r2'][0], None)]
     else:
-        bounds = [[0, 0] for _ in cl[2]]
-        bounds[-1] = [0, size]
-    offs = list(range(size)) if (not quick or size < 1500) else sorted(set(range(0, size, 7)) | set(range(size - 160, size)))
-    for cut in offs:
-        orig = cut_file(target['path'], cut)
-        r = c17.quiet(read)
-        with open(target['path'], 'wb') as f:
-            f.write(orig)
-        res = c17.res_series(r if isinstance(r, Exception) else list(r))
-        cid = 'cut-sfcf%s-%s-%05d' % (version, os.path.basename(target['path']), cut)
-        cases.append({'id': cid, 'ev': 'trunc', 'fmt': 'sfcf', 'reps': reps, 'par': {'im': False}, 'sel': {'k': 'all'}, 'r': 2, 'bounds': bounds, 'cut': cut,
-                      'cutinfo': '%d of %d bytes' % (cut, size), 'known': 'sfcf: ' + KNOWN_TAIL, 'res': res})
-        ctx.nontrivial.add(('sfcf', version, cut))
+        f1 = [x for x in mine if x['replica'] == 'tst_r1']
+        f2 = [x for x in mine if x['replica'] == 'tst_r2']
+        targets = [(1, f1[0], 0), (2, f2[len(f2) // 2], len(f2) // 2), (2, f2[-1], len(f2) - 1)]
+    for r_idx, target, pos in targets:
+        size = os.path.getsize(target['path'])
+        if appended:
+            bounds = [[s_, e_] for s_, e_, _ in target['records']]
+        else:
+            bounds = [[0, 0] for _ in cl[r_idx]]          # the other files of the replica are complete ...
+            bounds[pos] = [0, size]                       # ... this one is complete only when nothing is cut off
+        offs = list(range(size)) if (not quick or size < 1500) else sorted(set(range(0, size, 7)) | set(range(size - 160, size)))
+        if quick and len(targets) > 2 and pos not in (0, len(cl[r_idx]) - 1):
+            offs = offs[::3]
+        for cut in offs:
+            orig = cut_file(target['path'], cut)
+            r = c17.quiet(read)
+            with open(target['path'], 'wb') as f:
+                f.write(orig)
+            res = c17.res_series(r if isinstance(r, Exception) else list(r))
+            cid = 'cut-sfcf%s-%s-%05d' % (version, '_'.join(target['path'].split(os.sep)[-2:]) if not appended else os.path.basename(target['path']), cut)
+            cases.append({'id': cid, 'ev': 'trunc', 'fmt': 'sfcf', 'reps': reps, 'par': {'im': False}, 'sel': {'k': 'all'}, 'r': r_idx, 'bounds': bounds, 'cut': cut,
+                          'cutinfo': '%d of %d bytes' % (cut, size), 'known': 'sfcf: ' + KNOWN_TAIL, 'res': res})
+            ctx.nontrivial.add(('sfcf', version, r_idx, pos, cut))
     return cases
 
 
@@ -240,6 +249,11 @@ def export_cases(rng, ctx, tmp, quick):
     for fmt, path, reader in files:
         size = os.path.getsize(path)
         offs = list(range(size)) if not quick else sorted(set(range(0, size, 37)) | set(range(size - 30, size)))
+        if quick:
+            # structure-aware offsets: wherever a gzip member could begin (a cut there leaves a well-formed archive of the members before it)
+            with open(path, 'rb') as f:
+                blob = f.read()
+            offs = sorted(set(offs) | {k for k in range(1, size) if blob[k:k + 3] == b'\x1f\x8b\x08'})
         for cut in offs:
             orig = cut_file(path, cut)
             r = c17.quiet(reader)
